@@ -36,6 +36,7 @@ alias C01_tick_count_eq_loop := C05_tick_count_eq_loop
 alias C01_clock_update_never_hangs := C05_update_never_hangs
 alias C01_clock_system_never_hangs := C05_no_history_hangs
 alias C01_infinite_clock_speed_saturates := C05_infinite_speed_saturates
+alias C01_clock_speed_tween_never_nan := C05_speed_interpolation_never_nan
 alias C01_wrap_closed_form_eq_loop := C04_wrap_closed_form_eq_loop
 alias C01_wrap_lands_in_region := C04_wrap_lands_in_region
 alias C01_resource_queues_bounded := C08_queue_bounds_partial
